@@ -97,6 +97,9 @@ func (m *Manager) connect(recursed bool, closeGen uint64) (err error) {
 
 	_eio, err := eio.Dial(m.url, &callbacks, &m.eioConfig)
 	if err != nil {
+		// (Here, under `connectMu`, and not in `open` after this method has returned: by then another open
+		// may have connected, and the clean-up would switch off the callbacks of that connection.)
+		m.cleanup()
 		m.resetParser()
 		m.stateMu.Lock()
 		m.state = clientConnStateDisconnected
